@@ -119,7 +119,12 @@ def model_specs(
 
     string_form = []
     if allow_string_form and names == "ident" and draw(st.integers(0, 2)) == 0:
-        string_form = [s for s in state if draw(st.booleans())]
+        # an update given as a string is parsed by sympy: names that exist in sympy's namespace (Gt, Ne, S, N, beta, ...)
+        # would be resolved to sympy objects instead of symbols, so such definitions are never written as strings
+        import sympy
+
+        clash = {n for n in namelist + [dtname] if hasattr(sympy, n)}
+        string_form = [s for s in state if draw(st.booleans()) and not (T.symbols_of(trees[s]) & clash)]
 
     containers = {
         "state": draw(st.sampled_from(["set", "list"])),
